@@ -2055,6 +2055,7 @@ Theorem apply_conf_change_frame r cc r' ocs :
   raft_apply_conf_change r cc = Ok (r', ocs) ->
   sel MsgTimeoutNow (r_msgs r') = sel MsgTimeoutNow (r_msgs r) /\ cfg r' = cfg r /\
   r_state r' = r_state r /\ r_election_elapsed r' = r_election_elapsed r /\
+  r_vote r' = r_vote r /\
   (r_lead_transferee r' = None \/ r_lead_transferee r' = r_lead_transferee r).
 Proof.
   intros H. unfold raft_apply_conf_change in H.
@@ -2065,7 +2066,8 @@ Proof.
   destruct Hx as [_ [[-> _]|(_ & _ & _ & r3 & [A1 A2] & ->)]].
   - repeat split; auto.
   - pose proof (ctl_cfg _ _ A2) as Hc. apply ctl_fields in A2.
-    destruct A2 as (B1 & B2 & B3 & _).
+    destruct A2 as (B1 & B2 & B3 & _ & _ & B6 & _).
+    match type of B6 with _ = r_vote ?r0 => change (r_vote r0) with (r_vote r) in B6 end.
     match type of B1 with _ = r_state ?r0 => change (r_state r0) with (r_state r) in B1 end.
     match type of B2 with _ = r_lead_transferee ?r0 =>
       change (r_lead_transferee r0) with (r_lead_transferee r) in B2 end.
@@ -2076,12 +2078,14 @@ Proof.
     assert (Hp : sel MsgTimeoutNow (r_msgs (pcc_check r3)) = sel MsgTimeoutNow (r_msgs r3) /\
                  cfg (pcc_check r3) = cfg r3 /\ r_state (pcc_check r3) = r_state r3 /\
                  r_election_elapsed (pcc_check r3) = r_election_elapsed r3 /\
+                 r_vote (pcc_check r3) = r_vote r3 /\
                  (r_lead_transferee (pcc_check r3) = None \/
                   r_lead_transferee (pcc_check r3) = r_lead_transferee r3)).
     { unfold pcc_check. destruct (r_lead_transferee r3) eqn:E; [|repeat split; auto].
       destruct (negb _); repeat split; auto. }
-    destruct Hp as (P1 & P2 & P3 & P4 & P5).
+    destruct Hp as (P1 & P2 & P3 & P4 & P6 & P5).
     split; [congruence|]. split; [congruence|]. split; [congruence|]. split; [congruence|].
+    split; [congruence|].
     destruct P5 as [P5|P5]; [left; exact P5|right; congruence].
 Qed.
 
@@ -2279,7 +2283,7 @@ Qed.
 
 (* what one RawNode input does to the Raft inside *)
 Inductive rn_effect (n : rawnode) (i : rn_input) (n' : rawnode) : Prop :=
-| RE_none : rn_raft n' = rn_raft n -> rn_effect n i n'
+| RE_none : i <> RnTick -> rn_raft n' = rn_raft n -> rn_effect n i n'
 | RE_step m c : input_msg (r_id (rn_raft n)) i = Some m ->
     step (rn_raft n) m = Ok (rn_raft n', c) -> rn_effect n i n'
 | RE_tick b : i = RnTick -> tick (rn_raft n) = Ok (rn_raft n', b) -> rn_effect n i n'
@@ -2292,9 +2296,9 @@ Lemma rn_apply_effect n i n' : rn_apply n i = Ok n' -> rn_effect n i n'.
 Proof.
   intros H. destruct i; cbn [rn_apply] in H.
   - (* step *) inv_bind H. inversion H; subst; clear H. unfold rn_step in Hx.
-    destruct (is_local_msg (m_type m)); [inversion Hx; apply RE_none; reflexivity|].
+    destruct (is_local_msg (m_type m)); [inversion Hx; apply RE_none; [discriminate|reflexivity]|].
     match type of Hx with (if ?c then _ else _) = _ => destruct c end;
-      [|inversion Hx; apply RE_none; reflexivity].
+      [|inversion Hx; apply RE_none; [discriminate|reflexivity]].
     unfold lift2 in Hx. inv_bind Hx. inversion Hx; subst; clear Hx. destruct x0 as [r1 c].
     eapply RE_step; [reflexivity|exact Hx0].
   - inv_bind H. inversion H; subst; clear H. unfold rn_tick in Hx. inv_bind Hx.
@@ -2333,4 +2337,127 @@ Proof.
     destruct x as [r1 c]. eapply RE_step; [reflexivity|exact Hx].
   - unfold rn_read_index in H. inv_bind H. inversion H; subst; clear H.
     destruct x as [r1 c]. eapply RE_step; [reflexivity|exact Hx].
+Qed.
+
+(* ------------------------------------------------------------------ *)
+(* RawNode level, theorem 1: whichever entry point is called, a MsgTimeoutNow is added
+   to the outbound queue only by a step of a leader on MsgAppendResponse or
+   MsgTransferLeader, and then it is justified *)
+Theorem rn_timeout_now_guard n i n' :
+  rn_apply n i = Ok n' ->
+  tn_sub (rn_raft n) (rn_raft n') \/
+  exists m, input_msg (r_id (rn_raft n)) i = Some m /\ tn_source (rn_raft n) m (rn_raft n').
+Proof.
+  intros H. apply rn_apply_effect in H.
+  destruct H as [_ E|m c E K|b E K|cc ocs E K|E1 E2 K].
+  - left. unfold tn_sub. rewrite E. apply incl_refl.
+  - apply timeout_now_sources in K. destruct K as [K|K].
+    + left. unfold tn_sub. rewrite K. apply incl_refl.
+    + right. exists m. auto.
+  - left. apply tick_no_timeout_now in K. unfold tn_sub. rewrite K. apply incl_refl.
+  - left. apply apply_conf_change_frame in K. destruct K as (K & _).
+    unfold tn_sub. rewrite K. apply incl_refl.
+  - left. apply K.
+Qed.
+
+(* ------------------------------------------------------------------ *)
+(* RawNode level, theorem 3: a pending transfer does not survive election_timeout ticks *)
+Fixpoint rn_run (n : rawnode) (is : list rn_input) : Res rawnode :=
+  match is with
+  | [] => Ok n
+  | i :: rest => n1 <- rn_apply n i ;; rn_run n1 rest
+  end.
+
+Definition is_tick (i : rn_input) : bool := match i with RnTick => true | _ => false end.
+Definition count_ticks (is : list rn_input) : N := N.of_nat (length (filter is_tick is)).
+
+(* inputs that neither ask for a (new) transfer nor are a vote request that claims to
+   come from the node itself *)
+Definition benign (rid : N) (i : rn_input) : Prop :=
+  match input_msg rid i with
+  | Some m => m_type m <> MsgTransferLeader /\ (m_type m = MsgRequestVote -> m_from m <> rid)
+  | None => True
+  end.
+
+Definition tr_inv (rid k : N) (r : raft) : Prop :=
+  r_id r = rid /\
+  (r_lead_transferee r = None \/
+   (is_leader r = true /\ r_vote r = rid /\ rid <> 0 /\
+    r_election_timeout r <= r_election_elapsed r + k /\ 0 < k)).
+
+Lemma cfg_id r r' : cfg r' = cfg r -> r_id r' = r_id r /\ r_election_timeout r' = r_election_timeout r.
+Proof. unfold cfg. intros H. inversion H. auto. Qed.
+
+Lemma rn_effect_inv n i n' rid k :
+  rn_effect n i n' -> benign rid i ->
+  tr_inv rid (k + (if is_tick i then 1 else 0)) (rn_raft n) -> tr_inv rid k (rn_raft n').
+Proof.
+  intros He Hb [Hid Hinv]. unfold benign in Hb. rewrite <- Hid in Hb.
+  destruct He as [E0 E|m c E K|b E K|cc ocs E K|E1 E2 K].
+  - (* nothing happened to the Raft *)
+    assert (Hnt : is_tick i = false) by (destruct i; try reflexivity; congruence).
+    rewrite Hnt, N.add_0_r in Hinv. rewrite E. split; assumption.
+  - rewrite E in Hb. destruct Hb as [Hb1 Hb2].
+    assert (Hnt : is_tick i = false) by (destruct i; try reflexivity; discriminate).
+    rewrite Hnt, N.add_0_r in Hinv.
+    pose proof (step_lt_mono _ _ _ _ K Hb1) as [Hc Hm]. apply cfg_id in Hc. destruct Hc as [Hc1 Hc2].
+    split; [congruence|].
+    destruct Hinv as [Hn|(A & B & C0 & D & F)].
+    + left. destruct (r_lead_transferee (rn_raft n')) eqn:El; [|reflexivity].
+      specialize (Hm _ eq_refl). congruence.
+    + apply transfer_timer_step in K; [|exact A].
+      destruct K as (_ & [K|[(K1 & K2 & K3 & K4)|[(_ & K & _)|K]]]).
+      * left. exact K.
+      * right. repeat split; auto; congruence.
+      * contradiction.
+      * exfalso. eapply no_vote_reset; [| |apply Hb2|exact K]; try congruence.
+        destruct K as (_ & K & _). exact K.
+  - subst i. cbn [is_tick] in Hinv.
+    pose proof (tick_lt_mono _ _ _ K) as [Hc Hm]. apply cfg_id in Hc. destruct Hc as [Hc1 Hc2].
+    split; [congruence|].
+    destruct Hinv as [Hn|(A & B & C0 & D & F)].
+    + left. destruct (r_lead_transferee (rn_raft n')) eqn:El; [|reflexivity].
+      specialize (Hm _ eq_refl). congruence.
+    + apply transfer_timer_tick in K; [|exact A].
+      destruct K as (_ & [K|(K1 & K2 & K3 & K4 & K5)]); [left; exact K|right].
+      repeat split; auto; try congruence; lia.
+  - subst i. cbn [is_tick] in Hinv. rewrite N.add_0_r in Hinv.
+    apply apply_conf_change_frame in K. destruct K as (_ & Hc & K1 & K2 & K3 & K4).
+    apply cfg_id in Hc. destruct Hc as [Hc1 Hc2]. split; [congruence|].
+    destruct Hinv as [Hn|(A & B & C0 & D & F)].
+    + left. destruct K4 as [K4|K4]; congruence.
+    + destruct K4 as [K4|K4]; [left; exact K4|right].
+      assert (L : is_leader (rn_raft n') = true) by (unfold is_leader in *; rewrite K1; exact A).
+      repeat split; auto; congruence.
+  - assert (Hnt : is_tick i = false) by (destruct i; try reflexivity; congruence).
+    rewrite Hnt, N.add_0_r in Hinv. destruct K as [K _].
+    pose proof (ctl_leader _ _ K) as L. apply ctl_fields in K.
+    destruct K as (_ & K2 & K3 & K4 & _ & K6 & K7 & _).
+    split; [congruence|].
+    destruct Hinv as [Hn|(A & B & C0 & D & F)]; [left; congruence|right].
+    repeat split; auto; congruence.
+Qed.
+
+Theorem transfer_expires_trace : forall is n n',
+  rn_run n is = Ok n' ->
+  is_leader (rn_raft n) = true ->
+  r_vote (rn_raft n) = r_id (rn_raft n) -> r_id (rn_raft n) <> 0 ->
+  Forall (benign (r_id (rn_raft n))) is ->
+  0 < count_ticks is ->
+  r_election_timeout (rn_raft n) <= r_election_elapsed (rn_raft n) + count_ticks is ->
+  r_lead_transferee (rn_raft n') = None.
+Proof.
+  intros is n n' Hrun Hl Hv Hid Hb Hpos Hk.
+  set (rid := r_id (rn_raft n)) in *.
+  assert (Hinv : tr_inv rid (count_ticks is) (rn_raft n)).
+  { split; [reflexivity|]. right. repeat split; auto. }
+  clear Hl Hv Hid Hpos Hk. clearbody rid. revert n n' Hrun Hinv.
+  induction is as [|i rest IH]; intros n n' Hrun Hinv; cbn [rn_run] in Hrun.
+  - inversion Hrun; subst. destruct Hinv as [_ [H|(_ & _ & _ & _ & H)]]; [exact H|].
+    unfold count_ticks in H. cbn in H. lia.
+  - inv_bind Hrun. inversion Hb; subst.
+    apply (IH H2 x n' Hrun). apply rn_apply_effect in Hx.
+    eapply rn_effect_inv; [exact Hx|exact H1|].
+    replace (count_ticks rest + (if is_tick i then 1 else 0)) with (count_ticks (i :: rest)); [exact Hinv|].
+    unfold count_ticks. cbn [filter]. destruct (is_tick i); cbn [length]; lia.
 Qed.
